@@ -458,7 +458,7 @@ pub fn pool_op(rng: &mut Rng, c: &Corpus, sw: &Swarm, n: usize, focus: &str) -> 
                 EOp::MulBigint(idx(rng, n), limbs)
             }
             7 => {
-                let l = rng.range(0, 4) as usize;
+                let l = scaled_len(rng, 0, 4, 25);
                 let is: Vec<usize> = (0..l).map(|_| idx(rng, n)).collect();
                 match rng.below(3) {
                     0 => EOp::SumOf(is),
@@ -628,8 +628,11 @@ pub fn field_op(rng: &mut Rng, n: usize) -> FieldOp {
     let src = match rng.below(if n > 0 { 14 } else { 11 }) {
         0 | 1 => {
             // byte strings of length 0..=200, structured
-            let l = match rng.below(6) {
+            // the property's quantifier names 0..=200; its statement says "any length", and chunked or
+            // table-driven reductions have their block boundaries above that, so one string in eight is longer
+            let l = match rng.below(8) {
                 0 => *rng.pick(&[0usize, 1, 31, 32, 33, 47, 48, 49, 63, 64, 65, 96, 200]),
+                1 => *rng.pick(&[255usize, 256, 257, 258, 288, 300, 384, 385, 400, 480, 481, 512, 513, 736, 768, 1024, 2048, 2049, 2100]),
                 _ => rng.usize_below(201),
             };
             let mut b = rng.bytes(l);
@@ -681,10 +684,21 @@ pub fn field_op(rng: &mut Rng, n: usize) -> FieldOp {
             FSrc::Dec(v.to_string())
         }
         7 => {
-            let v = if rng.chance(1, 3) {
-                Fld::int_le(&rng.bytes(f.nbytes + 4))
-            } else {
-                field_value(rng, f)
+            let v = match rng.below(6) {
+                0 | 1 => Fld::int_le(&rng.bytes(f.nbytes + 4)),
+                2 => {
+                    // wide integers: around 2^2048 and beyond (more 64-bit digits than any fixed buffer guess)
+                    let l = *rng.pick(&[64usize, 255, 256, 257, 264, 300, 512, 2048, 2049]);
+                    let mut b = rng.bytes(l);
+                    if rng.chance(1, 2) {
+                        // 2^(8(l-1)) + small
+                        b.iter_mut().for_each(|x| *x = 0);
+                        b[0] = 5;
+                        b[l - 1] = 1;
+                    }
+                    Fld::int_le(&b)
+                }
+                _ => field_value(rng, f),
             };
             FSrc::Big(v.to_string())
         }
@@ -793,14 +807,14 @@ pub fn payload(rng: &mut Rng, c: &Corpus, npool: usize, nf: usize, focus: &str) 
             as_: elem_as(rng),
         },
         2 => {
-            let l = rng.range(0, 4) as usize;
+            let l = scaled_len(rng, 0, 4, 40);
             Payload::VecElem {
                 idxs: (0..l).map(|_| idx(rng, npool)).collect(),
                 as_: elem_as(rng),
             }
         }
         3 => {
-            let l = rng.range(1, 4) as usize;
+            let l = scaled_len(rng, 1, 4, 40);
             let bad = rng.usize_below(l + 1); // index of a possibly invalid item (== l: none)
             Payload::RawVecElem {
                 items: (0..l)
@@ -911,6 +925,15 @@ pub fn uncompressed_bytes(rng: &mut Rng, c: &Corpus) -> Vec<u8> {
     }
 }
 
+/// Lengths around realistic internal block sizes (8 / 64 / 256 items), drawn one time in `one_in`.
+fn scaled_len(rng: &mut Rng, small_lo: u64, small_hi: u64, one_in: u64) -> usize {
+    if rng.chance(1, one_in) {
+        *rng.pick(&[7usize, 8, 9, 63, 64, 65, 66, 127, 128, 129, 255, 256, 257])
+    } else {
+        rng.range(small_lo, small_hi) as usize
+    }
+}
+
 pub fn gen_run(rng: &mut Rng, c: &Corpus, focus: &str) -> IoRun {
     let sw = Swarm::draw(rng);
     let mut run = IoRun::default();
@@ -949,17 +972,24 @@ pub fn gen_run(rng: &mut Rng, c: &Corpus, focus: &str) -> IoRun {
             src: FSrc::Checked(hex(&fld(Which::Fp).to_le(&field_value(rng, fld(Which::Fp))))),
         });
     }
-    let nrec = match focus {
+    let mut nrec = match focus {
         "C06" => rng.range(0, 4),
         _ => rng.range(1, 12),
     } as usize;
+    // one run in sixty is a long session on one thread: state that accumulates over many records
+    // (caches with eviction, reused buffers, counters) is only visible there
+    let long_session = focus != "C06" && rng.chance(1, 60);
+    if long_session {
+        nrec = rng.range(70, 300) as usize;
+    }
     let nfp = run.fpool.len();
     for _ in 0..nrec {
         let p = payload(rng, c, npool.max(1), nfp.max(1), focus);
         let span = span_of(&p);
+        let quiet = long_session && !rng.chance(1, 10);
         let rec = Record {
-            wplan: io_plan(rng, &sw, span),
-            rplan: io_plan(rng, &sw, span),
+            wplan: if quiet { IoPlan::default() } else { io_plan(rng, &sw, span) },
+            rplan: if quiet { IoPlan::default() } else { io_plan(rng, &sw, span) },
             recv: if rng.chance(1, 4) { RecvMode::WithModeValidate } else { RecvMode::Compressed },
             flush_fails: sw.fault_level > 0 && rng.chance(1, 16),
             payload: p,
